@@ -447,7 +447,48 @@ def listing_passthrough(ctx) -> None:
     ctx.check(okp, 'C05.state-order', new, f'Tag keeps the states as an ordered tuple ({why})', ret, key='new:states-order')
 
 
+def key_paths(ctx) -> None:
+    """Every registry access made by a level of the asset hierarchy addresses *its own* position: the argument bound to the
+    registry parameter ``project`` / ``release`` / ``generation`` is the key of that very level of the receiver
+    (``self.key`` for the own level, ``self.<level>.key`` for the ones above, or a local of that name derived from one of
+    those) - both for direct ``self.registry.m(...)`` calls and for the cached accessors (TAGS/STATES/ARTIFACTS)."""
+    prog = ctx.prog
+    reg = prog.cls('forml.io.asset._persistent:Registry')
+    levels = {f'{CASE}:Project': 'project', f'{MAJOR}:Release': 'release', f'{MINOR}:Generation': 'generation'}
+    caches = {}
+    for mod in (MAJOR, MINOR):
+        for st in prog.module(mod).tree.body:
+            if isinstance(st, ast.Assign) and isinstance(st.value, ast.Call) and core.call_tail(st.value) == 'Cache' and st.value.args:
+                caches[core.src(st.targets[0])] = core.src(st.value.args[0]).split('.')[-1]
+    n = 0
+    for cref, own in levels.items():
+        ci = prog.cls(cref)
+        for mname in ci.methods:
+            fn = prog.func(f'{ci.ref}.{mname}')
+            local = {core.src(a.targets[0]): core.src(a.value) for a in core.walk_local(fn.node) if isinstance(a, ast.Assign) and len(a.targets) == 1 and isinstance(a.targets[0], ast.Name)}
+            for c in core.calls_in(fn.node):
+                method, args = None, None
+                if isinstance(c.func, ast.Attribute) and core.src(c.func.value) == 'self.registry':
+                    method, args = c.func.attr, list(c.args)
+                elif isinstance(c.func, ast.Name) and c.func.id in caches and c.args and core.src(c.args[0]) == 'self.registry':
+                    method, args = caches[c.func.id], list(c.args[1:])
+                if method is None or method not in reg.methods or any(isinstance(a, ast.Starred) for a in args):
+                    continue
+                params = [a.arg for a in reg.methods[method].args.args[1:]]
+                for pname, arg in zip(params, args):
+                    if pname not in levels.values():
+                        continue
+                    n += 1
+                    text = core.src(arg)
+                    text = local.get(text, text) if isinstance(arg, ast.Name) else text
+                    want = 'self.key' if pname == own else f'self.{pname}.key'
+                    okk = text == want or (isinstance(arg, ast.Name) and arg.id == pname and pname != own and text == arg.id) or (isinstance(arg, ast.Name) and arg.id == pname and list(levels.values()).index(pname) > list(levels.values()).index(own))
+                    ctx.check(okk, 'R-KEYPATH', fn, f'registry.{method}(... {pname}=`{core.src(arg)}` ...): the {pname} key of a {own} level is `{want}`', c, key=f'{mname}:{method}:{pname}')
+    ctx.floor('R-KEYPATH', n, 10)
+
+
 def run(ctx) -> None:
+    key_paths(ctx)
     from . import C08
 
     C08.eqhash_agreement(ctx, ('forml.io.asset',), floor=3)
